@@ -55,6 +55,7 @@ func Send[T any](ch chan<- T, v T) {
 }
 
 func Recv[T any](ch <-chan T) T {
+	busy()
 	k, g, quit := PreReal(RealRecv)
 	if k == nil {
 		return <-ch
@@ -70,6 +71,7 @@ func Recv[T any](ch <-chan T) T {
 }
 
 func Recv2[T any](ch <-chan T) (T, bool) {
+	busy()
 	k, g, quit := PreReal(RealRecv)
 	if k == nil {
 		v, ok := <-ch
@@ -84,6 +86,53 @@ func Recv2[T any](ch <-chan T) (T, bool) {
 	}
 	PostReal(k, g)
 	return v, ok
+}
+
+// ---- a slow node ----
+
+// In a world with Config.RecvCost > 0 every channel receive of the program is
+// preceded by that much simulated time of being busy: the goroutines that
+// consume queues (message loop, datagram parser) are slower than the network
+// that fills them, so queues build up and arrivals at different instants
+// overlap - without the knob the program is infinitely fast and only
+// simultaneous arrivals do. Being busy is a kernel event, not a timer of the
+// program: the world is not quiescent while somebody is busy.
+
+type busyStartOp struct {
+	k  *Kernel
+	d  time.Duration
+	at time.Time
+}
+
+func (o *busyStartOp) Ready() bool { return true }
+func (o *busyStartOp) Do() {
+	o.at = time.Now().Add(o.d)
+	o.k.After(o.d, "busy", func() {})
+}
+func (*busyStartOp) OpName() string { return "busy-start" }
+
+type busyWaitOp struct{ at time.Time }
+
+func (o busyWaitOp) Ready() bool    { return !time.Now().Before(o.at) }
+func (o busyWaitOp) Do()            {}
+func (o busyWaitOp) OpName() string { return "busy" }
+
+//go:norace
+func busy() {
+	k := K
+	if k == nil || k.killed || k.Cfg.RecvCost <= 0 {
+		return
+	}
+	g := Cur()
+	if g == nil {
+		return
+	}
+	op := &busyStartOp{k: k, d: k.Cfg.RecvCost}
+	trapG(k, g, op, false)
+	if k.killed {
+		return
+	}
+	trapG(k, g, busyWaitOp{op.at}, true)
 }
 
 // ---- select ----
@@ -172,6 +221,7 @@ func (permOp) OpName() string { return "perm" }
 // default) the goroutine blocks in a real select over all cases. It returns
 // the index of the chosen case, or -1 for default.
 func Select(hasDefault bool, cases ...Case) int {
+	busy()
 	k, g, quit := PreReal(RealNone)
 	if k == nil {
 		return selectNative(nil, nil, hasDefault, cases)
